@@ -96,7 +96,7 @@ def entry_points(facts, roles):
 def table_edges(facts, roles):
     """execute-like bodies (containing an indirect call) may invoke every function of the tables."""
     extra = defaultdict(set)
-    allfns = {e.fn_key for t in roles.tables for e in t.entries}
+    allfns = {e.fn_key for t in roles.tables for e in t.entries} | {k for t in roles.tables for e in t.entries for _, ks in e.extra for k in ks}
 
     def norm(sig):
         sig = re.sub(r"for<[^>]*>\s*", "", sig or "")
